@@ -151,9 +151,31 @@ class Scale:
         else:
             self.bad(fi, n, term, "%s quantities of different scale (2^(%d r) vs 2^(%d r))" % (verb, l[1], r[1]), ctx)
 
+    @staticmethod
+    def res_multiple(node):
+        """m when the (shift) amount is m * resolution, 0 when it does not involve the resolution, None otherwise"""
+        names = {norm(x) for x in ast.walk(node) if isinstance(x, (ast.Name, ast.Attribute))}
+        if not any(x.split(".")[-1] == "resolution" for x in names):
+            return 0
+        if norm(node).split(".")[-1] == "resolution" and isinstance(node, (ast.Name, ast.Attribute)):
+            return 1
+        if isinstance(node, ast.BinOp) and isinstance(node.op, ast.Mult):
+            for a, b in ((node.left, node.right), (node.right, node.left)):
+                if isinstance(a, ast.Constant) and isinstance(a.value, int) and not isinstance(a.value, bool):
+                    m = Scale.res_multiple(b)
+                    return None if m is None else a.value * m
+        if isinstance(node, ast.BinOp) and isinstance(node.op, (ast.Add, ast.Sub)):
+            a, b = Scale.res_multiple(node.left), Scale.res_multiple(node.right)
+            if a is not None and b is not None:
+                return a + b if isinstance(node.op, ast.Add) else a - b
+        return None
+
     def binop(self, n, l, r, fi, ctx):
         if isinstance(n.op, (ast.LShift, ast.RShift)) and l[0] != "LCF":
-            return (l[0] if l[0] != "LCB" else "LC", l[1])
+            # x << (m * resolution) multiplies by 2^(m r): the scale exponent moves by m
+            m = self.res_multiple(n.right)
+            e = None if (m is None or l[1] is None) else (l[1] + m if isinstance(n.op, ast.LShift) else l[1] - m)
+            return (l[0] if l[0] != "LCB" else "LC", e)
         if l[0] == "LCF" or r[0] == "LCF":
             return ("LCF", 1)
         wire = "LC" if (l[0] in ("LC", "LCB") or r[0] in ("LC", "LCB")) else ("float" if "float" in (l[0], r[0]) else "int")
